@@ -551,7 +551,7 @@ pub fn gen_c04(ctx: &Ctx, run: u64) -> ScenarioB {
     let poll_interval = gen_poll_interval(&mut rng);
     let tau_ps = gen_tau(&mut rng);
     let initial_hash_mb = *rng.pick(&[0usize, 1, 1, 1, 2, 3, 4, 16]);
-    let profile = rng.weighted(&[if ctx.thorough() { 300 } else { 400 }, 1, 6]);
+    let profile = rng.weighted(&[if ctx.thorough() { 300 } else { 400 }, 1, 24]);
     let mut steps = Vec::new();
     match profile {
         0 => {
@@ -680,7 +680,13 @@ pub fn gen_c08(ctx: &Ctx, run: u64) -> ScenarioB {
     // the monitored search: deeper, depth-limited or cancelled
     let white = side_to_move_is_white(&fen, &moves);
     let (go, stop_at_poll) = if rng.chance(4, 5) {
-        (GoSpec::depth(rng.range(3, max_depth as u64) as u8), None)
+        // rare PV shapes (a discarded full-window line followed by a leaf sibling) need depth 6-8
+        let d = match rng.below(10) {
+            0..=2 => rng.range(3, 5),
+            3..=7 => rng.range(6, 7),
+            _ => max_depth as u64,
+        };
+        (GoSpec::depth(d.min(max_depth as u64) as u8), None)
     } else {
         let (g, s, _) = gen_limit_b(&mut rng, white, poll_interval, tau_ps, max_depth);
         (g, s)
